@@ -226,6 +226,7 @@ inductive Err
   | wrongMethod     -- "State token was not issued by this method"
   | missingCall     -- "Missing call token in exchange request"
   | sessionLost     -- SessionLostError (any reason)
+  | badState        -- /init: "stream state … does not implement …" (handler result refused)
   deriving DecidableEq, Repr
 
 /-- `(*HttpServer).openToken` up to and including `aead.Open`. -/
@@ -475,13 +476,13 @@ structure InitOutcome where
   status : Nat
   rpcErr : Bool
   err : Option Err
-  mint : Option (CursorData × CallData)   -- payloads minted (callId/streamId/created come from the environment)
+  mint : Option (CursorData × CallData)   -- payloads minted (callId/streamId and the two CreatedAt values come from the environment)
   deriving DecidableEq, Repr
 
 /-- `handleStreamInit` for the harness family: the handler returns a state of kind `mi.mints`
 that finishes after `limit` turns; a producer's first turn is folded into `/init`. -/
 def initStream (tbl : List SealRec) (inst : Inst) (who : Ident) (method : Bytes) (limit : Nat)
-    (session : Option Bytes) (callId streamId schema : Bytes) (created : Int) : InitOutcome :=
+    (session : Option Bytes) (callId streamId schema : Bytes) (created callCreated : Int) : InitOutcome :=
   match inst.method? method with
   | none => ⟨404, false, some .notFound, none⟩
   | some mi =>
@@ -489,10 +490,12 @@ def initStream (tbl : List SealRec) (inst : Inst) (who : Ident) (method : Bytes)
     else match stickyResolve tbl inst who session with
       | .error _ => ⟨200, true, some .sessionLost, none⟩
       | .ok _ =>
+        -- the state the handler returned must implement the interface of the method's type
+        if fits mi.type mi.mints = false then ⟨200, true, some .badState, none⟩ else
         let prod := producerMode mi.type mi.mints
         let count := if prod then 1 else 0
         if prod ∧ count > limit then ⟨200, false, none, none⟩
         else ⟨200, false, none,
-          some (⟨created, callId, method, mi.mints, count, limit⟩, ⟨created, callId, schema, streamId⟩)⟩
+          some (⟨created, callId, method, mi.mints, count, limit⟩, ⟨callCreated, callId, schema, streamId⟩)⟩
 
 end Vgi.Token
